@@ -580,6 +580,13 @@ impl Tally {
 }
 
 /// do the FRI partition counts map every queried position of every layer to the same leaf?
+/// the opened values of every FRI layer are one repeated element and the remainder is a constant
+fn fri_constant(b: &Base) -> bool {
+    let e = elem_bytes(b.cfg.field) * b.cfg.opts.ext as usize;
+    let rep = |blk: &[u8]| blk.len() >= e && blk.len() % e == 0 && blk.chunks(e).all(|c| c == &blk[..e]);
+    b.pt.layers.iter().all(|l| rep(&l.0)) && b.pt.remainder.len() >= e && b.pt.remainder[e..].iter().all(|x| *x == 0)
+}
+
 fn partitions_equivalent(b: &Base, positions: &[usize], np1: u8, np2: u8) -> bool {
     if np1 >= 64 || np2 >= 64 {
         return false;
@@ -720,8 +727,12 @@ fn judge(b: &Base, t: &mut Tally, mutant: &[u8], what: &str, hint: &'static str)
             t.fails.push((
                 // a proof of a constant trace verifies at every query position; data that only steers the
                 // transcript / positions / layout is then not bound by anything (distinct site)
-                if b.constant_trace && ["context.options", "fri.num_partitions", "pow_nonce"].contains(&comp) {
+                if b.constant_trace && ["context.options", "pow_nonce"].contains(&comp) {
                     format!("c03.accepted-mutation.{}.constant-trace", comp)
+                } else if comp == "fri.num_partitions" && fri_constant(b) {
+                    // every FRI layer is one repeated value (constant DEEP composition): all leaves of the
+                    // layer trees coincide, whichever leaf a partition count selects
+                    "c03.accepted-mutation.fri.num_partitions.constant-fri".to_string()
                 } else {
                     format!("c03.accepted-mutation.{}", comp)
                 },
